@@ -210,6 +210,7 @@ type Worker struct {
 	E   *interp.Engine
 	S   *interp.Solver
 	RS  *interp.Solver // separate solver for native replays (clean scope)
+	replayLines []int64 // layout to realise in the next replay (symbolic-lines cases)
 	N   *Native
 	ID  int
 }
@@ -618,7 +619,22 @@ func (w *Worker) handleViolation(cs *Case, x *OracleCtx, v *Violation, rep *Repo
 		rep.inconclusiveViolation(cs, v, err.Error())
 		return
 	}
+	// a symbolic layout is realised by inserting blank lines
+	var lineVals []int64
+	if cs.SymLines {
+		lineVals = make([]int64, len(x.Lines))
+		for k := 1; k < len(x.Lines); k++ {
+			if x.Lines[k] != "" {
+				lineVals[k], _ = interp.EvalInt(x.Lines[k], model)
+			}
+		}
+		if n, err := interp.EvalInt(x.NTerm, model); err == nil {
+			lineVals = append(lineVals, n) // last element: total number of lines
+		}
+	}
+	w.replayLines = lineVals
 	confirmed, rv, rsrcs, routs := w.Replay(cs, values, srcOf)
+	w.replayLines = nil
 	f := &Finding{Property: rep.Property, Case: cs.Name, Sub: v.Sub, Msg: v.Msg, Detail: v.Detail, Sources: rsrcs, Outputs: routs, Model: model, AtomValues: values, Shape: cs.Shape, Confirmed: confirmed}
 	if rv != nil {
 		f.ReplayMsg = rv.Msg
@@ -643,19 +659,51 @@ func (w *Worker) Replay(cs *Case, values map[int]string, srcOf map[*Program]stri
 		cs.Prog.Atoms.Declare(c, values)
 		nlines := strings.Count(srcOf[cs.Prog], "\n")
 		x := &OracleCtx{W: w, C: c, Case: cs, Src: cs.Prog.Atoms.Substitute(srcOf[cs.Prog], values), NLines: nlines, Res: map[string]*CompileResult{}, Replay: true}
+		layout := func(s string) string { return s }
 		if cs.SymLines {
 			x.Lines = make([]string, nlines+2)
 			for k := 1; k <= nlines; k++ {
 				x.Lines[k] = interp.IntLit(int64(k))
 			}
 			x.NTerm = interp.IntLit(int64(nlines))
+			if lv := w.replayLines; len(lv) >= nlines+1 {
+				// put rendered line k on source line lv[k] by inserting blank lines
+				for k := 1; k <= nlines && k < len(lv); k++ {
+					x.Lines[k] = interp.IntLit(lv[k])
+				}
+				total := lv[len(lv)-1]
+				if len(lv) > nlines+1 && total >= lv[nlines] {
+					x.NTerm = interp.IntLit(total)
+				} else {
+					x.NTerm = interp.IntLit(lv[nlines])
+				}
+				layout = func(s string) string {
+					ls := strings.Split(s, "\n")
+					var sb strings.Builder
+					cur := int64(1)
+					for k := 1; k <= len(ls); k++ {
+						if k <= nlines && k < len(lv) {
+							for cur < lv[k] {
+								sb.WriteString("\n")
+								cur++
+							}
+						}
+						sb.WriteString(ls[k-1])
+						if k < len(ls) {
+							sb.WriteString("\n")
+							cur++
+						}
+					}
+					return sb.String()
+				}
+			}
 		}
 		for _, v := range cs.Variants {
 			p := cs.Prog
 			if v.Prog != nil {
 				p = v.Prog
 			}
-			src := cs.Prog.Atoms.Substitute(srcOf[p], values)
+			src := layout(cs.Prog.Atoms.Substitute(srcOf[p], values))
 			srcs[v.Name] = src
 			nres, err := w.nativeCompile(src, v.Opt, values)
 			if err != nil {
